@@ -2,6 +2,8 @@ import HierArc.Drv.Proto
 import HierArc.Model.Gauss
 import HierArc.Model.Cosmo
 import HierArc.Model.Lens
+import HierArc.Model.H0Sample
+import HierArc.Drv.C05
 namespace HierArc.Drv.C19
 open Lean HierArc.Drv
 
@@ -23,6 +25,37 @@ def scale (j : Json) : R Json := do
     ("ds_dds", jf (HierArc.Gauss.dsDdsOf z dp.1 dp.2.1)),
     ("beta", jf (HierArc.Cosmo.betaRaw (← g j "ds1") (← g j "dds1") (← g j "ds2") (← g j "dds2")))])
 
-def ops : List (String × (Json → R Json)) := [("C19.scale", scale)]
+/-- op `C19.lens`: one lens term END TO END from the sampled cosmology (`Model/H0Sample`): the cosmology
+    comes as hierArc's parameter dictionary (`tag` + `kw`, through the model's `paramMap`) — the comoving
+    integral is composite Simpson with 2^depth panels —, then distances, displacement, data likelihood.
+    Returns the term at `(H0, data)`, the term of the rescaled lens at `(c·H0, data/c)` and the constant of
+    `td_lens_H0_times_scale` (0 for the ratio type). -/
+def lens (j : Json) : R Json := do
+  let p ← HierArc.Drv.C05.params j
+  let c ← g j "c"
+  let depth := HierArc.Drv.C05.getNat j "depth" 8
+  let I := HierArc.Drv.C05.Isimpson p.Ω depth
+  let p' : HierArc.Cosmo.Params Float := ⟨c * p.H0, p.Ω⟩
+  let par : HierArc.H0Sample.LensPar Float := ⟨← g j "gamma_ppn", ← g j "lambda_mst", ← g j "kappa_ext"⟩
+  let zd ← g j "z_lens"
+  let zs ← g j "z_source"
+  let ty ← (← field j "type").getStr?
+  let out (a b k : Float) : Json :=
+    Json.mkObj [("base", jf a), ("scaled", jf b), ("const", jf k),
+      ("ddt_", jf (HierArc.H0Sample.displaced p I par zd zs).1), ("dd_", jf (HierArc.H0Sample.displaced p I par zd zs).2)]
+  if ty == "DsDdsGaussian" then
+    let m ← g j "ds_dds_mean"
+    let s ← g j "ds_dds_sigma"
+    pure (out (HierArc.H0Sample.dsddsEval p I par zd zs m s none) (HierArc.H0Sample.dsddsEval p' I par zd zs m s none) 0.0)
+  else
+    let l : HierArc.H0Sample.TDLens Float ←
+      if ty == "DdtGaussian" then pure (.gauss zd zs (← g j "ddt_mean") (← g j "ddt_sigma"))
+      else if ty == "DdtDdGaussian" then
+        pure (.ddtdd zd zs (← g j "ddt_mean") (← g j "ddt_sigma") (← g j "dd_mean") (← g j "dd_sigma") none)
+      else if ty == "DdtLogNorm" then pure (.lognorm zd zs (← g j "ddt_mu") (← g j "ln_sigma"))
+      else throw "bad-type"
+    pure (out (l.eval p I par) ((l.rescale c).eval p' I par) (l.const c))
+
+def ops : List (String × (Json → R Json)) := [("C19.scale", scale), ("C19.lens", lens)]
 
 end HierArc.Drv.C19
